@@ -124,14 +124,20 @@ def write_replay(prop, replay):
 def run_replay_file(path, timeout=60):
     """Run a replay in a clean interpreter against the real, unpatched code.
     Returns (code, output): 0 property holds on this case, 1 violated (reproduced), else error."""
+    import shutil
+    import tempfile
     env = dict(os.environ)
     env['PYTHONPATH'] = REPO + os.pathsep + VERIF
     env['PYTHONDONTWRITEBYTECODE'] = '1'
+    scratch = tempfile.mkdtemp(prefix='wcverif_rp_')      # the replay's trees live here: removed even when the replay is killed on time-out
+    env['TMPDIR'] = scratch
     try:
         p = subprocess.run([sys.executable, '-m', 'engine.replay', path], cwd=VERIF, env=env,
                            capture_output=True, text=True, timeout=timeout)
     except subprocess.TimeoutExpired:
         return 4, 'replay timed out'
+    finally:
+        shutil.rmtree(scratch, ignore_errors=True)
     return p.returncode, (p.stdout + p.stderr).strip()
 
 
